@@ -248,7 +248,10 @@ type c08World struct {
 	avss     []c08AVS
 	tasks    []c08Task
 	restarts []int64
-	opOfAcc  map[int]bool
+	// localTraffic: this process serves Simulate + CheckTx for every signed tx before DeliverTx (C08_CHECKTX=1)
+	localTraffic bool
+	nLocal       int
+	opOfAcc      map[int]bool
 }
 
 // two extra AVSs with different asset lists and different operator sets; their tasks are created together, so
@@ -285,6 +288,17 @@ func c08MutGenesis(app *exocoreapp.ExocoreApp, gs map[string]json.RawMessage) {
 	cdc.MustUnmarshalJSON(gs[dogfoodtypes.ModuleName], &dg)
 	_, a2 := assetstypes.GetStakerIDAndAssetIDFromStr(101, "", c08AssetAddrs[1])
 	dg.Params.AssetIDs = append(dg.Params.AssetIDs, a2)
+	// six more oracle tokens with staggered feeders that nobody answers (interval 10, starting at heights 2, 3, 3, 4, 4, 5;
+	// two of them end at heights 26 / 27): several rounds are sealed in the same EndBlock through the map-ordered
+	// path while other feeders still have entries behind them in every validator's (ordered) NonceList
+	var og oracletypes.GenesisState
+	cdc.MustUnmarshalJSON(gs[oracletypes.ModuleName], &og)
+	for i, f := range []struct{ start, end uint64 }{{2, 0}, {3, 0}, {3, 26}, {4, 27}, {4, 0}, {5, 0}} {
+		og.Params.Tokens = append(og.Params.Tokens, &oracletypes.Token{Name: fmt.Sprintf("C08G%d", i), ChainID: 1, ContractAddress: "0x", Decimal: 8, Active: true})
+		og.Params.TokenFeeders = append(og.Params.TokenFeeders, &oracletypes.TokenFeeder{
+			TokenID: uint64(len(og.Params.Tokens) - 1), RuleID: 1, StartRoundID: 1, StartBaseBlock: f.start, Interval: 10, EndBlock: f.end})
+	}
+	gs[oracletypes.ModuleName] = cdc.MustMarshalJSON(&og)
 	if os.Getenv("C08_SCENARIO") == "noprice" {
 		third := "0x6B175474E89094C44Da98b954EedeAC495271d0F"
 		ag.Tokens = append(ag.Tokens, assetstypes.StakingAssetInfo{
@@ -352,6 +366,7 @@ func runC08Worker(a *Args) error {
 	}
 	w.avsAddr = avstypes.GenerateAVSAddr(avstypes.ChainIDWithoutRevision(env.ChainID))
 	w.avss = c08AVSs
+	w.localTraffic = os.Getenv("C08_CHECKTX") != ""
 	var obs []c08BlockObs
 	restartAt := map[int64]bool{}
 	if os.Getenv("C08_RESTART") != "" && os.Getenv("C08_SCENARIO") == "" {
@@ -408,6 +423,7 @@ func runC08Worker(a *Args) error {
 	if err != nil {
 		return err
 	}
+	_ = os.WriteFile(filepath.Join(a.Out, "local.json"), []byte(strconv.Itoa(w.nLocal)), 0o644)
 	rb, _ := json.Marshal(w.restarts)
 	_ = os.WriteFile(filepath.Join(a.Out, "restarts.json"), rb, 0o644)
 	return os.WriteFile(filepath.Join(a.Out, "obs.json"), b, 0o644)
@@ -438,6 +454,20 @@ func (w *c08World) deliver(tx sdk.Tx) c08TxObs {
 	bz, err := w.txCfg.TxEncoder()(tx)
 	if err != nil {
 		return c08TxObs{Code: 99}
+	}
+	if w.localTraffic {
+		// node-local traffic that must not matter: this process answers a Simulate request and a CheckTx for the
+		// transaction before the block delivers it (mempool admission / gas estimation of a node that happens to
+		// receive the tx first); the other processes never see either
+		func() {
+			defer func() { _ = recover() }()
+			_, _, _ = w.env.App.Simulate(bz)
+		}()
+		func() {
+			defer func() { _ = recover() }()
+			_ = w.env.App.CheckTx(abci.RequestCheckTx{Tx: bz, Type: abci.CheckTxType_New})
+		}()
+		w.nLocal++
 	}
 	r := w.env.App.DeliverTx(abci.RequestDeliverTx{Tx: bz})
 	if os.Getenv("C08_DEBUG") != "" {
@@ -619,7 +649,7 @@ func (w *c08World) exec(op c08Op) c08TxObs {
 		return w.keeperOp(func(ctx sdk.Context) error {
 			cur := env.App.OracleKeeper.GetParams(ctx)
 			upd := oracletypes.Params{MaxSizePrices: int32(op.Amt)}
-			if op.A == 0 && len(cur.Tokens) < 6 {
+			if op.A == 0 && len(cur.Tokens) < 12 {
 				n := len(cur.Tokens)
 				upd.Tokens = []*oracletypes.Token{{Name: fmt.Sprintf("C08T%d", n), ChainID: 1, ContractAddress: "0x", Decimal: 8, Active: true}}
 				upd.TokenFeeders = []*oracletypes.TokenFeeder{{TokenID: uint64(n), RuleID: 1, StartRoundID: 1,
@@ -746,13 +776,14 @@ type c08Case struct {
 	Script  []c08Block      `json:"script"`
 	Procs   []string        `json:"procs"` // GOMAXPROCS of each process
 	Obs     [][]c08BlockObs `json:"obs"`
+	Local   string          `json:"local_traffic"`
 	Restart []int64         `json:"restarts_of_last_process"` // heights before whose BeginBlock the LAST process re-created the oracle's memory from the store
 	Tags    []string        `json:"tags,omitempty"`
 	NT      bool            `json:"nt"`
 	Diverge string          `json:"first_divergence,omitempty"`
 }
 
-func c08RunWorker(seed int64, blocks int, dir string, gomaxprocs string, scenario string, restart bool) ([]c08BlockObs, []int64, error) {
+func c08RunWorker(seed int64, blocks int, dir string, gomaxprocs string, scenario string, restart, localTraffic bool) ([]c08BlockObs, []int64, error) {
 	if err := os.MkdirAll(dir, 0o755); err != nil {
 		return nil, nil, err
 	}
@@ -762,6 +793,11 @@ func c08RunWorker(seed int64, blocks int, dir string, gomaxprocs string, scenari
 		cmd.Env = append(cmd.Env, "C08_RESTART=1")
 	} else {
 		cmd.Env = append(cmd.Env, "C08_RESTART=")
+	}
+	if localTraffic {
+		cmd.Env = append(cmd.Env, "C08_CHECKTX=1")
+	} else {
+		cmd.Env = append(cmd.Env, "C08_CHECKTX=")
 	}
 	out, err := cmd.CombinedOutput()
 	if err != nil {
@@ -821,12 +857,14 @@ func runC08(a *Args) error {
 	}
 	r := rand.New(rand.NewSource(a.Seed))
 	par := 3
+	nLocal := map[int]int{}
 	directed := []string{}
 	if os.Getenv("C08_NO_DIRECTED") == "" {
 		directed = c08Directed
 	}
 	for ci := 0; ci < a.N+len(directed); ci++ {
-		cs := c08Case{Seed: r.Int63n(1 << 40), Blocks: blocks, Procs: procs, NT: true}
+		cs := c08Case{Seed: r.Int63n(1 << 40), Blocks: blocks, Procs: procs, NT: true,
+			Local: "process 1 serves Simulate + CheckTx for every signed tx before its DeliverTx; the other processes do not"}
 		scenario := ""
 		if ci < len(directed) {
 			scenario = directed[ci]
@@ -851,7 +889,14 @@ func runC08(a *Args) error {
 				defer func() { <-sem }()
 				restart := pi == len(procs)-1 && os.Getenv("C08_NO_RESTART") == ""
 				var rs []int64
-				cs.Obs[pi], rs, errs[pi] = c08RunWorker(cs.Seed, blocks, filepath.Join(a.Out, fmt.Sprintf("w%d_%d", ci, pi)), procs[pi], scenario, restart)
+				local := pi == 1 && os.Getenv("C08_NO_LOCALTRAFFIC") == ""
+				cs.Obs[pi], rs, errs[pi] = c08RunWorker(cs.Seed, blocks, filepath.Join(a.Out, fmt.Sprintf("w%d_%d", ci, pi)), procs[pi], scenario, restart, local)
+				if local {
+					if b, err := os.ReadFile(filepath.Join(a.Out, fmt.Sprintf("w%d_%d", ci, pi), "local.json")); err == nil {
+						n, _ := strconv.Atoi(string(b))
+						nLocal[ci] = n
+					}
+				}
 				if restart {
 					cs.Restart = rs
 				}
@@ -879,6 +924,7 @@ func runC08(a *Args) error {
 		}
 		w.CountN("blocks", blocks)
 		w.CountN("restarts-in-last-process", len(cs.Restart))
+		w.CountN("txs-simulated-and-checked-in-process-1", nLocal[ci])
 		w.CountN("processes", len(procs))
 		// first divergence, for humans
 		for bi := 0; bi < blocks && cs.Diverge == ""; bi++ {
